@@ -103,7 +103,7 @@ def main():
         return cache_line(case) if case["kind"] == "cache" else P.line_of(case)
 
     stats = {"cache_cases": 0, "server_sequences": 0, "calls": 0, "refused": 0, "slot_collisions_other_address": 0,
-             "server_ops": 0, "server_rate_limited": 0, "server_not_passing_lists": 0, "skipped_c15_class": 0}
+             "server_ops": 0, "server_rate_limited": 0, "server_not_passing_lists": 0}
 
     def coq_case(case, out):
         z = vplib.zlit
@@ -138,9 +138,6 @@ def main():
         stats["server_ops"] += len(ops)
         stats["server_rate_limited"] += sum(1 for d in ops if any(g[2] == 0 for g in d["regs"]))
         stats["server_not_passing_lists"] += sum(1 for d in ops if d["in_deny"] or not d["in_allow"])
-        if P.in_c15_class(case, ops):
-            stats["skipped_c15_class"] += 1
-            return None
         inp, outp = P.model_terms(case, ops)
         return "(is_ %s)" % inp, "(os %s)" % outp
 
@@ -179,7 +176,6 @@ def main():
         "the hash (RandomState) is an argument of the model; per case it is the table of slots the implementation reported through `index`",
         "server sequences: elapsed time is simulated by back-dating cache entries (only differences of instants are observable); "
         "real elapsed time between two calls is assumed below one minute",
-        "datagrams in C15's non-client/failed-authentication class are not compared here (%d scenarios), C15 owns them" % stats["skipped_c15_class"],
     ]
     return c.finish()
 
@@ -187,6 +183,6 @@ def main():
 MANIFEST = {
     "claimed": False,
     "text": "Theorems (Coq, closed): over EVERY history of (address, instant) calls, every hash function of the cache (RandomState is a universally quantified function argument), every size and cutoff: a call is refused iff the cache is enabled and the most recent earlier call on the same slot (hash mod size) was made by the same address less than the cutoff before, with the saturating duration_since (C20_refused_iff; every call overwrites its slot); corollaries: refused only if the client's own most recent earlier request was within the cutoff (C20_own_rate_only), refused whenever it was and no other address used the slot in between (C20_must_limit), never refused with size 0 (C20_size_zero), no panic (C20_total). Position in the server policy, on the decision model of Server::handle: clients on the deny list or off the allow list never touch the cache and are never rate-limited (C20_position_lists_first); a list-passing datagram makes exactly one is_allowed call whatever it contains, and a refusal sends nothing and registers RateLimit/Ignore (C20_position); over any history of datagrams through one server the cache sees exactly the list-passing sub-history (C20_position_history) and a datagram is rate-limited iff the characterisation above holds on that sub-history (C20_server_refused_iff). Tie: TimestampedCache::is_allowed with explicit instants (slots read back through the private `index`), verdicts and final cache contents compared; Server::handle sequences with simulated time.",
-    "note": "Trusted: Coq kernel+vm_compute; hand-written models coq/Model/RateCache.v and coq/Model/Server.v (addresses numbered injectively, Instant/Duration as integer nanoseconds); harness + python driver; in Server::handle sequences elapsed time is simulated by back-dating the cache entries (only differences of instants are observable; real elapsed time between calls assumed < 1 min, boundaries at +-1 ns are exercised on is_allowed directly). The cache keys on the address as given (an IPv4-mapped and the plain IPv4 address are different keys) while the lists canonicalise: modelled as is. Datagrams of C15's non-client/failed-authentication class are not model-compared here. Print Assumptions: closed under the global context for all nine theorems.",
+    "note": "Trusted: Coq kernel+vm_compute; hand-written models coq/Model/RateCache.v and coq/Model/Server.v (addresses numbered injectively, Instant/Duration as integer nanoseconds); harness + python driver; in Server::handle sequences elapsed time is simulated by back-dating the cache entries (only differences of instants are observable; real elapsed time between calls assumed < 1 min, boundaries at +-1 ns are exercised on is_allowed directly). The cache keys on the address as given (an IPv4-mapped and the plain IPv4 address are different keys) while the lists canonicalise: modelled as is. Print Assumptions: closed under the global context for all nine theorems.",
     "design_ref": "DESIGN.md 3 C20",
 }
